@@ -87,7 +87,7 @@ func (h *Handler) spoofLoop(addr packet.Addr) {
 	for {
 		verifGate("check", lid)
 		h.arpMutex.Lock()
-		targetAddr, hunting := h.findHuntByIP(addr.IP)
+		targetAddr, hunting := h.huntList[string(addr.MAC)] // membership is per MAC: the list is keyed by MAC
 		verifEmit("arp.check", lid, addr, targetAddr, hunting)
 		h.arpMutex.Unlock()
 		verifGate("act", lid)
